@@ -68,6 +68,15 @@ theorem C07_cond_belowIdLen (DL : BitVec 32) (n3 : BitVec 64) :
   simp only [BitVec.slt]
   rw [BitVec.toInt_signExtend_of_le (by omega)]
 
+/-- the placeholder for the Packet Length in `packWithCompression` is `MaxVarIntLen` bytes at its three sites
+(`buff.Write(make([]byte, MaxVarIntLen))`, `VarInt(buff.Len() - MaxVarIntLen)`,
+`buff.Next(MaxVarIntLen - packetLengthLen)`: syntactic facts regenerated from the source), and `MaxVarIntLen` is the
+model's `maxVarIntLen`, the longest VarInt — so `Next` never gets a negative count (`C07_pack` proves the model's
+panic point unreachable for every size in the domain, including Packet Lengths of four bytes). -/
+theorem C07_padding_sites :
+    Gen.Pack_padWrite = 1 ∧ Gen.Pack_padLength = 1 ∧ Gen.Pack_padNext = 1 ∧
+      Gen.MaxVarIntLen = (maxVarIntLen : Int) := by decide
+
 /-! ### what `Pack` emits (closed form), independent of the pool -/
 
 /-- `Pack` succeeds and emits `frameOf`, whatever the pooled buffer and zlib writer held before -/
@@ -150,6 +159,39 @@ theorem C07_concat (Z : ZLib) (H : Z.Contract) (t : Int) (pools : Nat → Pool) 
     simp only [List.length_cons, unpackMany]
     rw [Rd.bind_ok h1, Rd.bind_ok h2]
     rfl
+
+/-- The same stream read into a FRESH `Packet` per frame, all packets HELD until the end: every one of them is
+the packet that was sent (with exactly its own capacity).  In the model a returned packet is a value; that no
+later call can change it is the ownership fact `C07_data_owned` below, tied to the code by `frame.hold`. -/
+theorem C07_held (Z : ZLib) (H : Z.Contract) (t : Int) (pools : Nat → Pool) (ps : List (BitVec 32 × Bytes))
+    (hsize : ∀ p ∈ ps, idLen p.1 + p.2.length ≤ Model.maxDataLength) (rest : Bytes) (s : Stream)
+    (hs : s.flat = (ps.map fun p => frameOf Z t p.1 p.2).flatten ++ rest) :
+    ∃ s', unpackHeld Z t pools ps.length s = (Res.ok (ps.map fun p => ⟨p.1, p.2, p.2.length⟩), s') ∧
+      s'.flat = rest ∧ s'.failing = s.failing := by
+  induction ps generalizing s with
+  | nil =>
+    refine ⟨s, rfl, ?_, rfl⟩
+    simpa using hs
+  | cons p ps ih =>
+    simp only [List.map_cons, List.flatten_cons, List.append_assoc] at hs
+    obtain ⟨s1, h1, hf1, hx1⟩ := unpack_frameOf Z H t p.1 p.2 Pkt.zero (pools ps.length) _ s
+      (hsize p (by simp)) hs
+    obtain ⟨s2, h2, hf2, hx2⟩ := ih (fun q hq => hsize q (by simp [hq])) s1 hf1
+    refine ⟨s2, ?_, hf2, by rw [hx2, hx1]⟩
+    simp only [List.length_cons, unpackHeld]
+    rw [Rd.bind_ok h1, Rd.bind_ok h2]
+    simp only [Rd.pure_apply, List.map_cons, Prod.mk.injEq, Res.ok.injEq, List.cons.injEq, and_true]
+    unfold Pkt.store Pkt.zero
+    simp only [Pkt.mk.injEq, true_and]
+    split <;> omega
+
+/-- ownership: the payload of a returned packet never lives in the pooled buffer -/
+theorem C07_data_owned (p₀ : Pkt) (n : Nat) :
+    p₀.backing n ≠ Backing.pooled ∧ (p₀.cap < n → p₀.backing n = Backing.fresh) := by
+  unfold Pkt.backing
+  constructor
+  · split <;> simp
+  · intro h; simp [h]
 
 /-- …and the frames in `C07_concat` are what successive `Pack` calls emit, each with its own stale pool -/
 theorem C07_concat_packed (Z : ZLib) (H : Z.Contract) (t : Int) (poolsW : Nat → Pool) (ps : List (BitVec 32 × Bytes))
